@@ -66,6 +66,14 @@ class Reply:
         self.serial = serial
 
 
+class ReplyError(Exception):
+    """A reply that happens to be an exception instance: a value like any other - it is sent, never raised"""
+
+    def __init__(self, serial):
+        Exception.__init__(self, serial)
+        self.serial = serial
+
+
 class Token:
     """The only thing a user awaitable of the simulation yields to the loop"""
 
@@ -81,7 +89,7 @@ class Token:
         self.kind = kind
         self.arg = arg
         self.live = True
-        self.reply = Reply(serial)
+        self.reply = Reply(serial) if serial % 4 else ReplyError(serial)
         self.interrupts = 0
         self.expect_interrupt = None
         self.party = party
@@ -104,8 +112,10 @@ class Token:
                 if sim.cancel_sent is not None and exc is sim.cancel_sent:
                     sim.cancel_arrived = True
                 raise
-            except BaseException:
+            except BaseException as exc:
                 self.live = False
+                if exc is self.reply:
+                    sim.breach("reply_thrown_instead_of_sent", self.serial)
                 raise
             if self.expect_interrupt is not None:
                 # the loop threw an interrupt but the token received a send
